@@ -148,6 +148,7 @@ func main() {
 	workers := fs.Int("workers", runtime.NumCPU(), "worker processes")
 	keep := fs.Bool("keep", false, "keep the scratch directory")
 	scale := fs.Float64("scale", 1, "multiply run counts (development)")
+	subseeds := fs.Int("subseeds", 200, "selftest: sub-seeds per property (non-race build)")
 	noSelftest := fs.Bool("no-selftest", false, "skip the determinism self-test (development)")
 	fs.Parse(os.Args[2:])
 	keepScratch = *keep
@@ -160,7 +161,7 @@ func main() {
 	}
 
 	if prop == "selftest" {
-		os.Exit(selftestMain(seed, *workers))
+		os.Exit(selftestMain(seed, *subseeds))
 	}
 	if _, ok := levels[prop]; !ok {
 		fmt.Fprintf(os.Stderr, "vcheck: property %q is not claimed by this framework\n", prop)
